@@ -35,14 +35,28 @@ def tree_hash(repo):
     return h.hexdigest()[:24], n
 
 
+def _locked(path):
+    """exclusive advisory lock on a file (held until the returned handle is closed)"""
+    import fcntl
+    os.makedirs(os.path.dirname(path), exist_ok=True)
+    fp = open(path, "a+")
+    fcntl.flock(fp, fcntl.LOCK_EX)
+    return fp
+
+
 def ensure_tool():
-    r = subprocess.run([os.path.join(VERIF, "tools", "mptsa", "build.sh")])
-    if r.returncode != 0 or not os.path.exists(MPTSA):
-        raise SystemExit("ANALYSIS-BROKEN cannot build mptsa")
+    lk = _locked(os.path.join(BUILD, "mptsa.lock"))
+    try:
+        r = subprocess.run([os.path.join(VERIF, "tools", "mptsa", "build.sh")])
+        if r.returncode != 0 or not os.path.exists(MPTSA):
+            raise SystemExit("ANALYSIS-BROKEN cannot build mptsa")
+    finally:
+        lk.close()
 
 
 def facts(repo="/repo", verbose=False):
-    """returns (factdir, info) for the current tree"""
+    """returns (factdir, info) for the current tree.  Checks of several properties may start at the same time on the same
+    tree: the first one extracts under a per-tree lock, the others wait for it and read the cache entry."""
     ensure_tool()
     t0 = time.time()
     hx, nfiles = tree_hash(repo)
@@ -50,14 +64,32 @@ def facts(repo="/repo", verbose=False):
     os.makedirs(cache, exist_ok=True)
     dest = os.path.join(cache, hx)
     info_p = os.path.join(dest, "info.json")
-    if os.path.exists(info_p) and not os.environ.get("VERIF_NOCACHE"):
-        info = json.load(open(info_p))
-        info["cached"] = True
-        return os.path.join(dest, "facts"), info
-    sys.path.insert(0, os.path.join(VERIF, "tools"))
-    import compdb
-    work = tempfile.mkdtemp(prefix="mptsa-facts-", dir=cache)
+
+    def cached():
+        if os.path.exists(info_p) and not os.environ.get("VERIF_NOCACHE"):
+            try:
+                info = json.load(open(info_p))
+            except (OSError, ValueError):
+                return None
+            info["cached"] = True
+            try:
+                os.utime(dest, None)          # recently used: not a candidate for eviction
+            except OSError:
+                pass
+            return os.path.join(dest, "facts"), info
+        return None
+    r = cached()
+    if r:
+        return r
+    lk = _locked(os.path.join(cache, hx + ".lock"))
+    work = None
     try:
+        r = cached()
+        if r:
+            return r
+        sys.path.insert(0, os.path.join(VERIF, "tools"))
+        import compdb
+        work = tempfile.mkdtemp(prefix="mptsa-facts-", dir=cache)
         db = compdb.make(repo, work)
         fdir = os.path.join(work, "facts")
         os.makedirs(fdir)
@@ -80,16 +112,23 @@ def facts(repo="/repo", verbose=False):
         info = {"units": len(files), "produced": produced, "errors": errs, "source_files_hashed": nfiles,
                 "tree_hash": hx, "extract_s": round(time.time() - t0, 2), "cached": False}
         json.dump(info, open(os.path.join(work, "info.json"), "w"))
-        # keep at most 8 cache entries (checks of different trees may run side by side)
+        # keep at most 8 cache entries; entries used within the last 15 minutes stay (another check may be reading them)
+        now = time.time()
         old = sorted((os.path.getmtime(os.path.join(cache, d)), d) for d in os.listdir(cache)
-                     if os.path.isdir(os.path.join(cache, d)) and not d.startswith("mptsa-facts-"))
-        for _, d in old[:-7]:
-            shutil.rmtree(os.path.join(cache, d), ignore_errors=True)
+                     if os.path.isdir(os.path.join(cache, d)) and not d.startswith("mptsa-facts-") and d != hx)
+        for mt, d in old[:-7]:
+            if now - mt > 900:
+                shutil.rmtree(os.path.join(cache, d), ignore_errors=True)
+                try:
+                    os.unlink(os.path.join(cache, d + ".lock"))
+                except OSError:
+                    pass
         if os.path.exists(dest):
-            shutil.rmtree(dest, ignore_errors=True)
+            shutil.rmtree(dest, ignore_errors=True)       # a partial entry (no info.json): nobody reads it
         os.rename(work, dest)
         work = None
         return os.path.join(dest, "facts"), info
     finally:
         if work and os.path.exists(work):
             shutil.rmtree(work, ignore_errors=True)
+        lk.close()
